@@ -19,7 +19,7 @@ import json
 import threading
 from typing import Any, Dict, List, Tuple
 
-from .. import core, serialisers, wiregen, workers
+from .. import core, orderdep, serialisers, wiregen, workers
 from ..workers import dec, enc
 from . import c09
 
@@ -155,10 +155,14 @@ def run(tier: str, only=None) -> core.Result:
     try:
         hello = {n: p.hello for n, p in pools.items()}
         a_ans = ask_all(pools, a_wire)
-        b_ans = ask_all(pools, b_wire, batch=1)
     finally:
         for p in pools.values():
             p.close()
+    pools_history = {n: p.history_before for n, p in pools.items()}
+    # every serialiser site is driven in a process of its own, so that what one driver instantiated
+    # cannot influence the next
+    b_ans = orderdep.per_config(CONFIGS, lambda cfg: [r[0] for r in workers.fresh_sequences(cfg, HANDLER, [[w] for w in b_wire])])
+    b_again = orderdep.per_config(CONFIGS, lambda cfg: [r[0] for r in workers.fresh_sequences(cfg, HANDLER, [[w] for w in reversed(b_wire)])])
 
     for n in hello:
         if hello[n]["classes"] != class_list:
@@ -272,28 +276,73 @@ def run(tier: str, only=None) -> core.Result:
                     for sig, msg in j["violations"]:
                         report(sig, msg, {"part": "B", "site": s["site"], "variant": r["variant"], "backend": n})
 
-    # ---- determinism audit (fresh workers) ----
-    audit_total = audit_bad = 0
+    # ---- order of validation made explicit: ordered pairs of same-named classes, fresh workers ----
+    pair_info: Dict[str, Any] = {"groups": {}, "ordered_pairs": 0, "answers_compared_with_alone": 0, "differences": 0}
+    if do_a:
+        groups = orderdep.same_name_groups(class_list)
+        by_class: Dict[str, List[Dict[str, Any]]] = {}
+        for c in a_cases:
+            by_class.setdefault(c["target"], []).append(c)
+
+        def wc(c):
+            return {"op": "validate", "target": c["target"], "wire": enc(c["wire"]), "lossless": True}
+
+        members = sorted({q for v in groups.values() for q in v})
+        pr = orderdep.run_pairs(CONFIGS, HANDLER, {q: [wc(c) for c in by_class[q]] for q in members}, groups)
+        pair_info["groups"] = {k: [wiregen.short(q) for q in v] for k, v in groups.items()}
+        pair_info["ordered_pairs"] = len(pr["pairs"])
+        for cfg in CONFIGS:
+            n = cfg["name"]
+            for (qa, qb) in pr["pairs"]:
+                for which, q in ((0, qa), (1, qb)):
+                    for ci, c in enumerate(by_class[q]):
+                        pair_info["answers_compared_with_alone"] += 1
+                        got, alone = pr[n]["seq"][(qa, qb)][which][ci], pr[n]["alone"][q][ci]
+                        if workers.line(got) == workers.line(alone):
+                            continue
+                        pair_info["differences"] += 1
+                        first, then = wiregen.short(qa), wiregen.short(qb)
+                        report({"class": "order-dependent-behaviour", "backend": n, "model": wiregen.short(q),
+                                "first": first, "then": then},
+                               f"{wiregen.short(q)} <- {json.dumps(c['wire'], ensure_ascii=True)[:240]}: under {n}, in a fresh "
+                               f"process that validates objects of {first} and then of {then}, the answer differs from the "
+                               f"one of a fresh process that validates {wiregen.short(q)} alone: "
+                               f"{orderdep.first_difference(alone, got)}",
+                               {"part": "order", "backend": n, "target": c["target"], "label": c["label"], "wire": enc(c["wire"]),
+                                "history": [{"target": h["target"], "wire": enc(h["wire"])}
+                                            for h in (by_class[qa] if which == 1 else by_class[qa][:ci])]})
+
+    # ---- determinism audit (fresh workers); a mismatch is explained before it is reported ----
+    audit_total = audit_bad = audit_order = 0
     for cfg in CONFIGS:
         n = cfg["name"]
-        allc = a_wire + b_wire
-        alla = a_ans[n] + b_ans[n]
-        if not allc:
-            continue
-        # every serialiser site is re-driven; 1 in AUDIT_MOD of the model cases
-        a = workers.audit(cfg, HANDLER, a_wire, a_ans[n], AUDIT_MOD, cap=20000) if a_wire else {"reasked": 0, "mismatches": 0}
-        audit_total += a["reasked"]
-        audit_bad += a["mismatches"]
-        if a["mismatches"]:
-            res.harness_errors.append(f"nondeterministic answer of the {n} worker for model case #{a['first_mismatch_index']}")
+        if a_wire:
+            a = workers.audit(cfg, HANDLER, a_wire, a_ans[n], AUDIT_MOD, cap=20000)
+            audit_total += a["reasked"]
+            audit_bad += a["mismatches"]
+            for ex in orderdep.explain_audit_mismatches(cfg, HANDLER, a_wire, a_ans[n], pools_history[n], a):
+                i = ex["index"]
+                if ex["kind"] == "nondeterministic":
+                    res.harness_errors.append(f"nondeterministic answer of the {n} worker for {a_cases[i]['target']} {a_cases[i]['label']}")
+                    continue
+                audit_order += 1
+                model = wiregen.short(a_cases[i]["target"])
+                report({"class": "order-dependent-behaviour", "backend": n, "model": model},
+                       f"{model} <- {json.dumps(a_cases[i]['wire'], ensure_ascii=True)[:200]}: under {n} the answer after "
+                       f"{len(ex['history'])} earlier validations in the same process ({ex['where']}) differs from the answer "
+                       f"of a fresh process: {orderdep.first_difference(ex['alone'], ex['after'])}",
+                       {"part": "order", "backend": n, "target": a_cases[i]["target"], "label": a_cases[i]["label"],
+                        "wire": enc(a_cases[i]["wire"]),
+                        "history": [{"target": a_cases[h]["target"], "wire": enc(a_cases[h]["wire"])} for h in ex["history"]]})
         if b_wire:
-            with workers.Pool(cfg, HANDLER, min(4, len(b_wire))) as fresh:
-                again = fresh.map(list(reversed(b_wire)), batch=1)
+            again = b_again[n]
             for w, x, y in zip(reversed(b_wire), again, reversed(b_ans[n])):
                 audit_total += 1
                 if workers.line(x) != workers.line(y):
                     audit_bad += 1
                     res.harness_errors.append(f"nondeterministic serialiser driver under {n}: {w['site']}")
+    if audit_order:
+        audit_bad = sum(1 for h in res.harness_errors if h.startswith("nondeterministic"))
 
     if do_a and len(status_a) < 2 and not res.harness_errors:
         res.harness_errors.append(f"vacuous part A: a single outcome {status_a}")
@@ -312,6 +361,8 @@ def run(tier: str, only=None) -> core.Result:
     cov["violation_signatures"] = dict(sorted(sig_count.items()))
     cov["audit_reasked"] = audit_total
     cov["audit_mismatches"] = audit_bad
+    cov["audit_mismatches_explained_as_order_dependence"] = audit_order
+    cov["same_name_pair_order"] = pair_info
     cov["configurations"] = {n: {k: v for k, v in h.items() if k in ("PYDANTIC_AVAILABLE", "MCP_FORCE_FALLBACK", "base_module_of_models")}
                              for n, h in hello.items()}
     samples: List[Any] = [{"part": "A", "target": c["target"], "label": c["label"], "wire": c["wire"]} for c in c09._spread(a_cases, 4)]
@@ -349,6 +400,19 @@ def replay_case(args: Dict[str, Any]) -> Dict[str, Any]:
 
     logging.disable(logging.CRITICAL)
     wiregen.discover()
+    if args["part"] == "order":
+        cfg = [c_ for c_ in CONFIGS if c_["name"] == args["backend"]][0]
+        x = {"op": "validate", "target": args["target"], "wire": args["wire"], "lossless": True}
+        hist = [{"op": "validate", "target": h["target"], "wire": h["wire"], "lossless": True} for h in args.get("history", [])]
+        alone = workers.fresh_sequence(cfg, HANDLER, [x])[0]
+        after = workers.fresh_sequence(cfg, HANDLER, hist + [x])[-1]
+        viol = []
+        if workers.line(alone) != workers.line(after):
+            viol.append({"sig": {"class": "order-dependent-behaviour", "backend": args["backend"],
+                                 "model": wiregen.short(args["target"])},
+                         "msg": f"after {len(hist)} earlier validations: {orderdep.first_difference(alone, after)}"})
+        return {"part": "order", "target": args["target"], "wire": dec(args["wire"]), "history_length": len(hist),
+                "alone": alone, "after_history": after, "violations": viol}
     pools = start_pools(1)
     try:
         hello = {n: p.hello for n, p in pools.items()}
